@@ -15,7 +15,7 @@ CONSTANTS
   Buds = {0}
   NSAs = {FALSE}
   OptSets <- OptsTreeFull
-  Budgets = {3, 5}
+  Budgets = {4}
 VIEW MCView
 INVARIANTS TypeOK AtMostOnce ExactlyOnce Unbiased KeptRowsFactorGE1 NoSampleAgentKept SameFactorInLeaf FitsNothingSampled FairShare FixedWithinBudget FairShareRemaining FitIsJustified Monotone KeptWithinBudget QuotaWithinTotal QuotaProportional QuotaFitIsSize QuotaWithinTotalAnyRounding
 CHECK_DEADLOCK FALSE
